@@ -1,22 +1,23 @@
-\* two channels, keyed records only: 12,402 distinct / 241,574 generated states, ~10 s with 8 idle workers
+\* the exact-proposal path: one channel, compat surface, two commands, proposals of one or two records, keyed records:
+\* 223,848 distinct / 41,537,515 generated states, depth 14, 14 min with 4 workers on a loaded machine (load 40)
 SPECIFICATION SpecX
 CONSTANTS
-  Chans = {"c1", "c2"}
-  Ids = {1, 2}
+  Chans = {"c1"}
+  Ids = {1, 2, 3}
   Froms = {"u1"}
-  Nos = {"n1"}
+  Nos = {"", "n1"}
   Pays = {0}
-  Surfaces = {"typed", "compat"}
-  MaxSeq = 2
-  MaxBatch = 1
+  Surfaces = {"compat"}
+  MaxSeq = 3
+  MaxBatch = 2
   MaxOpen = 1
-  HWs = {}
+  HWs = {2}
   ProbeIds <- MCProbeIds
   ProbeFroms <- MCProbeFroms
   ProbeNos <- MCProbeNos
   KeepRmaxVariant = FALSE
-  Pids = {}
-  MaxRepl = 0
+  Pids = {1, 2}
+  MaxRepl = 1
   ProbePids <- MCProbePids
 VIEW ViewX
 INVARIANTS TypeOK C07_Contiguous C07_CachedLogEnd C07_IndexSound C08_KeyUnique C08_IdOnce C08_FilterCovers TypeOKX C07_ExactSound
